@@ -374,6 +374,22 @@ def _as_framing_error(exc: OSError) -> OSError:
     return exc
 
 
+def _as_invalid_ipc(exc: pa.ArrowException) -> pa.ArrowException:
+    """Report a decoder error about the request's own IPC bytes as ``ArrowInvalid``.
+
+    pyarrow does not confine itself to ``ArrowInvalid`` for well-framed but
+    corrupt bytes: an Int field declared 128 bits wide is an
+    ``ArrowNotImplementedError``, a batch naming an unknown dictionary id an
+    ``ArrowKeyError``.  Callers treat ``ArrowInvalid`` as "malformed request"
+    (HTTP 400; the pipe loop answers and ends); the other classes fell into
+    their catch-alls for server-side failures.  Resource exhaustion and
+    cancellation say nothing about the bytes and are left alone.
+    """
+    if isinstance(exc, (pa.ArrowInvalid, pa.ArrowMemoryError, pa.ArrowCancelled)):
+        return exc
+    return pa.ArrowInvalid(f"{type(exc).__name__}: {exc}")
+
+
 def _read_request(
     reader_stream: IOBase | pa.NativeFile,
     ipc_validation: IpcValidation = IpcValidation.FULL,
@@ -426,10 +442,18 @@ def _read_request(
         reader = ValidatedReader(ipc.open_stream(reader_stream), ipc_validation)
     except OSError as exc:
         raise _as_framing_error(exc) from exc
+    except pa.ArrowException as exc:
+        if (invalid := _as_invalid_ipc(exc)) is exc:
+            raise
+        raise invalid from exc
     try:
         batch, custom_metadata = reader.read_next_batch_with_custom_metadata()
     except OSError as exc:
         raise _as_framing_error(exc) from exc
+    except pa.ArrowException as exc:
+        if (invalid := _as_invalid_ipc(exc)) is exc:
+            raise
+        raise invalid from exc
     except IPCError as exc:
         # The stream is well framed but the batch's contents fail validation
         # (a date64 that is not a whole day, invalid UTF-8, ...).  The batch
@@ -468,6 +492,10 @@ def _read_request(
             break
         except OSError as exc:
             raise _as_framing_error(exc) from exc
+        except pa.ArrowException as exc:
+            if (invalid := _as_invalid_ipc(exc)) is exc:
+                raise
+            raise invalid from exc
         except IPCError as exc:
             # A further batch in the request stream fails validation.  Keep
             # consuming up to the end of the stream (alignment), then refuse.
